@@ -10,7 +10,7 @@
 From Coq Require Import ZArith QArith Qround Qabs List Bool.
 From RV Require Import Base.PyNum Timing.Snapper Timing.Snap Timing.TimingMap Timing.Reseat Timing.Integrate
   Formats.BMSText Formats.BMS Formats.BMSSpec Timing.Domain Timing.Domain2 Generated.Tables Proofs.BMSProofs Proofs.BMSWriteProofs
-  Proofs.BMSWriteLaneProofs Proofs.BMSWriteFinalProofs Proofs.BMSRoundTripProofs.
+  Proofs.BMSWriteLaneProofs Proofs.BMSWriteFinalProofs Proofs.BMSRoundTripProofs Proofs.BMSWriteAnyOrderProofs.
 From Coq Require Import Sorting.Permutation.
 Import ListNotations.
 Open Scope Z_scope.
@@ -200,4 +200,81 @@ Example C05_round_trip_nonvacuous :
          end
   | None => false
   end = true.
+Proof. vm_compute. reflexivity. Qed.
+
+(* ================================================================ tempo rows in ANY order ================================================================ *)
+(* The property ranges over all charts: the tempo rows need not be in time order (C15: row order must not matter).  The
+   writer's '#BPM' header takes the FIRST ROW's tempo and the '#BPMxx' ids follow row order, so the written text depends on
+   the row order; what it denotes does not.
+   C05_bms_write_denotes_any_order: for every chart cs of write_dom and EVERY permutation p of its tempo rows (the offsets of
+   a list of write_dom are pairwise distinct), BMSMap.write of the chart with rows p succeeds, bms_denote accepts the lines,
+   and written_denotes_any holds: hits and holds exactly as in C05_bms_write_denotes (multisets; column; time within 1/192
+   beat and equal on the grid; sample), the tempo changes of the file are the rows IN TIME ORDER at the in-memory times with
+   the in-memory tempos, the tempo in force at position 0 is the tempo of the EARLIEST row, header fields / WAV table / misc
+   retained; and the '#BPM' header prints the first row's tempo (replaced, per the format, by the channel-08 object the
+   writer puts at measure 0 position 0).  Uses C10_any_order (sort + distinct keys) through sort_any_order. *)
+Theorem C05_bms_write_denotes_any_order : forall (mk : Z) (lay : layout) (dflt : text) (cs : wchart) (p : list bco) (r : Q -> text),
+  write_dom tbl mk lay dflt cs = true -> Permutation p (w_bpms cs) -> (forall q, parse_decimal (r q) <> None) ->
+  exists ls l d, bms_write tbl lay dflt (with_bpms cs p) = Some ls /\ wscript tbl (with_bpms cs p) = Some l
+    /\ wscript tbl cs = Some l
+    /\ bms_denote lay (map (render_with r) ls) = Some d /\ written_denotes_any tbl dflt (with_bpms cs p) l d
+    /\ exists b0 rest, p = b0 :: rest /\ hlookup S_BPM (d_headers d) = Some (r (bo_bpm b0)).
+Proof. exact (bms_write_denotes_perm tbl C05_table_ok). Qed.
+(* the same on the decidable domain write_dom_any (= the chart with its rows put in time order lies in write_dom); it
+   contains write_dom and every row permutation of a chart of write_dom *)
+Theorem C05_bms_write_denotes_any_order_dom : forall (mk : Z) (lay : layout) (dflt : text) (c : wchart) (r : Q -> text),
+  write_dom_any tbl mk lay dflt c = true -> (forall q, parse_decimal (r q) <> None) ->
+  exists ls l d, bms_write tbl lay dflt c = Some ls /\ wscript tbl c = Some l
+    /\ bms_denote lay (map (render_with r) ls) = Some d /\ written_denotes_any tbl dflt c l d
+    /\ exists b0 rest, w_bpms c = b0 :: rest /\ hlookup S_BPM (d_headers d) = Some (r (bo_bpm b0)).
+Proof. exact (bms_write_denotes_any_order tbl C05_table_ok). Qed.
+Theorem C05_write_dom_any_contains : forall mk lay dflt c,
+  write_dom tbl mk lay dflt c = true -> write_dom_any tbl mk lay dflt c = true.
+Proof. exact (write_dom_any_of_write_dom tbl C05_table_ok). Qed.
+Theorem C05_write_dom_any_perm : forall mk lay dflt cs p,
+  write_dom tbl mk lay dflt cs = true -> Permutation p (w_bpms cs) -> write_dom_any tbl mk lay dflt (with_bpms cs p) = true.
+Proof. exact (write_dom_any_perm tbl C05_table_ok). Qed.
+(* read after write, rows in any order (hypotheses on the written text as in C05_bms_write_read) *)
+Theorem C05_bms_write_read_any_order : forall (mk : Z) (lay : layout) (dflt : text) (c : wchart) (r : Q -> text),
+  write_dom_any tbl mk lay dflt c = true -> (forall q, parse_decimal (r q) <> None) ->
+  exists ls l d, bms_write tbl lay dflt c = Some ls /\ wscript tbl c = Some l
+    /\ bms_denote lay (map (render_with r) ls) = Some d /\ written_denotes_any tbl dflt c l d
+    /\ forall c', text_domb lay (map (render_with r) ls) = true -> read_guards tbl (map (render_with r) ls) = true ->
+                  bms_read tbl lay mk (map (render_with r) ls) = Some c' -> read_back tbl dflt c l c'.
+Proof. exact (bms_write_read_any_order tbl C05_table_ok). Qed.
+
+(* ---- the '#BPM' header line.  "The header '#BPM' shows the chart's initial tempo" is FALSE for rows out of time order
+   (witness: w_good with its two tempo rows swapped: '#BPM 150', initial tempo 120) -- the file nevertheless denotes the
+   chart (c05_specb true, initial tempo 120: the object at measure 0 position 0 replaces the header).  It holds under the
+   narrowest guard: the first row is the earliest tempo point. ---- *)
+Definition w_swapped : wchart := with_bpms w_good (rev (w_bpms w_good)).
+Theorem C05_header_bpm_initial_refuted :
+  exists c, write_dom_any tbl Tables.bms.max_keys lay_BME DFLT c = true
+    /\ match bms_write tbl lay_BME DFLT c with
+       | Some ls => match bms_denote lay_BME (map render_wline ls) with
+                    | Some d => existsb (fun w => match w with WBpm0 q => negb (Qeq_bool q (d_bpm0 d)) | WText _ => false end) ls
+                                && c05_specb 0 tbl lay_BME c (map render_wline ls)
+                    | None => false
+                    end
+       | None => false
+       end = true.
+Proof. exists w_swapped. split; vm_compute; reflexivity. Qed.
+Theorem C05_header_bpm_initial : forall (mk : Z) (lay : layout) (dflt : text) (c : wchart) (r : Q -> text),
+  write_dom_any tbl mk lay dflt c = true -> first_row_earliest c = true -> (forall q, parse_decimal (r q) <> None) ->
+  exists ls d, bms_write tbl lay dflt c = Some ls /\ bms_denote lay (map (render_with r) ls) = Some d
+    /\ hlookup S_BPM (d_headers d) = Some (r (d_bpm0 d)).
+Proof. exact (header_bpm_initial tbl C05_table_ok). Qed.
+
+(* non-vacuity: the two-row chart with its rows swapped, and a three-row chart listed as (2nd, 3rd, 1st), lie in
+   write_dom_any and not in write_dom; their first row is not the earliest; the written lines pass the oracle, lie in the
+   reader's text-level domain and satisfy read_guards (the origin tempo object is the first tempo object listed) *)
+Definition w_three : wchart := with_bpms w_good [mkBco (150#1) 4 (4000#1); mkBco (100#1) 4 (7200#1); mkBco (120#1) 4 (0#1)].
+Example C05_any_order_nonvacuous :
+  forallb (fun c => write_dom_any tbl Tables.bms.max_keys lay_BME DFLT c && negb (write_dom tbl Tables.bms.max_keys lay_BME DFLT c)
+                    && negb (first_row_earliest c)
+                    && match bms_write tbl lay_BME DFLT c with
+                       | Some ls => let lines := map render_wline ls in
+                                    c05_specb 0 tbl lay_BME c lines && text_domb lay_BME lines && read_guards tbl lines
+                       | None => false
+                       end) [w_swapped; w_three] = true.
 Proof. vm_compute. reflexivity. Qed.
